@@ -4,8 +4,8 @@
 //! (1–3 partitions) over scripted sources: a generated finite *prefix* (0–4 batches of 1–6 rows per
 //! partition, `ts` non-decreasing per partition — strictly increasing and unique across partitions
 //! for the window shapes) followed by an endless tail whose `ts` keeps increasing (starting 10
-//! above the largest prefix `ts`, 2 rows per batch, keys ≥ 100 so that tail rows never join /
-//! share a window partition with prefix rows). Query shapes (SQL, default optimizer, generated
+//! above the largest prefix `ts`, 8 rows per batch, keys ≥ 100 so that tail rows never join or
+//! group with prefix rows; window shapes: same keys as the prefix, see below). Query shapes (SQL, default optimizer, generated
 //! `target_partitions` and `batch_size`): filter + projection, UNION ALL, ORDER BY ts
 //! (sort-preserving merge), symmetric hash join with a range condition on `ts` (INNER / LEFT /
 //! RIGHT / FULL) and without one (INNER), bounded window functions (ROWS and RANGE frames,
@@ -14,21 +14,25 @@
 //! hash aggregation on an unordered key, DISTINCT, window frame UNBOUNDED FOLLOWING).
 //!
 //! Oracle. Planning fails → "rejected" (fine, trivial). Otherwise the stream is consumed on a
-//! current-thread runtime until every source partition has produced B = 2 000 tail batches
-//! (sources stop with an error at 4·B as a safety net; a starved partition at that point makes the
-//! case inconclusive). Two reference sets are computed per shape by a small model over the prefix:
+//! current-thread runtime until every source partition has produced D tail batches, D = max(B =
+//! 2 000, 4 x batch_size x target_partitions / 8 rows per tail batch) — order-preserving merges
+//! only emit once batch_size merged rows are available, so the bound has to grow with batch_size
+//! (a source parks at 4·D so that slower partitions catch up). Two reference sets are computed per shape by a small model over the prefix:
 //! `may` = every row of the final answer whose `ts` lies in the prefix; `must` ⊆ `may` = the rows
-//! that are determined by the prefix under a conservative closing rule (ROWS-frame window row: f
-//! later rows in its own window partition *and* every row with a smaller `ts` closed as well, since
-//! the operator emits in input order; everything else: all of `may`, because the tail pushes `ts`
-//! past every prefix value / frame end).
+//! whose delivery is demanded (all of `may`, because the tail pushes `ts` past every prefix value /
+//! frame end; nothing for LIMIT and the end-of-input-only shapes). Window shapes: the tail reuses
+//! the prefix's keys, so that every window partition continues and every frame closes
+//! (BoundedWindowAggExec in Linear mode emits in input order and finalises a ROWS frame only when
+//! f + 1 later rows of the same window partition exist — with disjoint tail keys the last rows of
+//! each key would block everything behind them forever, legitimately); the model input is the
+//! prefix plus the first 6 (deterministic) tail batches per partition.
 //!  (a) liveness: `must` ⊆ delivered (multiset) at the deadline — counted in source batches;
 //!  (b) safety: delivered rows with a prefix `ts` ⊆ `may` (multiset: no wrong row, no duplicate,
 //!      no early emission of a partial group / window / unmatched outer row); ORDER BY output is
 //!      sorted; LIMIT n: the stream ends by itself after exactly n rows;
 //!  (c) an accepted query of an "end of input only" shape that delivers nothing although the
 //!      input is non-empty and the sources advanced B batches is a violation.
-//! A per-case timeout (60 s) makes the case inconclusive.
+//! A per-case timeout (150 s) makes the case inconclusive.
 //!
 //! Non-trivial: accepted, `must` non-empty, and not all of `must` had been delivered before the
 //! first tail batch was produced (the tail was needed to close it).
@@ -58,9 +62,20 @@ use vf_kit::engine::*;
 
 pub struct C50;
 
+pub const SIG_FILTER_COALESCER: &str = "filter-coalescer-holds-rows:later-input-never-passes";
 const B: u64 = 2_000;
-const TAIL_CAP: u64 = 4 * B;
 const TAIL_GAP: i64 = 10;
+/// rows per tail batch
+const TAIL_ROWS: i64 = 8;
+
+/// Deadline in tail batches per source partition. Order-preserving merges (SortPreservingMergeExec,
+/// order-preserving RepartitionExec) emit only once `batch_size` merged rows are available, per
+/// output partition and per stage; the bound therefore grows with batch_size x target_partitions
+/// (4 such buffers' worth of rows from every source partition), and is never below B.
+fn deadline(case: &Case) -> u64 {
+    let need_rows = 4 * case.batch_size.max(1) as u64 * case.target_partitions.clamp(1, 3) as u64;
+    B.max(need_rows.div_ceil(TAIL_ROWS as u64))
+}
 
 #[derive(Clone, Copy, Debug, Serialize, Deserialize, PartialEq)]
 pub enum Jt {
@@ -136,7 +151,7 @@ impl QShape {
         };
         match self {
             QShape::FilterProject => format!("SELECT k, ts, v * 2 AS w FROM t WHERE v >= {c}"),
-            QShape::UnionAll => format!("SELECT k, ts, v FROM t WHERE v >= {c} UNION ALL SELECT k, ts, v FROM u WHERE v < {c}"),
+            QShape::UnionAll => format!("SELECT k, ts, v FROM t WHERE v >= {c} UNION ALL SELECT k, ts, v FROM u WHERE v <= {}", c as i64 + 3),
             QShape::Merge => "SELECT k, ts, v FROM t ORDER BY ts".into(),
             QShape::ShjRange { jt, d } => {
                 let j = match jt {
@@ -200,7 +215,12 @@ fn shape_strategy() -> BoxedStrategy<QShape> {
 }
 
 fn case_strategy(tier: Tier) -> BoxedStrategy<Case> {
-    (shape_strategy(), table_strategy(tier), table_strategy(tier), 1u8..=3, prop_oneof![Just(2u16), Just(7u16), Just(8192u16)], -9i8..=3, any::<bool>())
+    // batch_size 8192 needs a 6x longer tail (see `deadline`): thorough tier only
+    let batch = match tier {
+        Tier::Quick => prop_oneof![Just(2u16), Just(7u16), Just(64u16), Just(1024u16)].boxed(),
+        Tier::Thorough => prop_oneof![3 => Just(2u16), 3 => Just(7u16), 3 => Just(64u16), 3 => Just(1024u16), 1 => Just(8192u16)].boxed(),
+    };
+    (shape_strategy(), table_strategy(tier), table_strategy(tier), 1u8..=3, batch, -9i8..=3, any::<bool>())
         .prop_map(|(shape, t, u, target_partitions, batch_size, c, prefer_existing_sort)| {
             let u = if shape.uses_u() { u } else { vec![] };
             Case { shape, t, u, target_partitions, batch_size, c, prefer_existing_sort }
@@ -247,15 +267,24 @@ fn materialise(spec: &[Vec<Vec<RowSpec>>], unique: bool) -> Vec<Vec<Vec<R>>> {
         .collect()
 }
 
-fn tail_gen(p: usize, np: usize, t0: i64) -> TailGen {
-    Arc::new(move |n: u64| {
-        let n = n as i64;
-        let row = |r: i64| {
-            let i = 2 * n + r;
-            (100 + (i + p as i64) % 64, t0 + TAIL_GAP + i * np as i64 + p as i64, (n + r) % 7)
-        };
-        make_batch(&[row(0), row(1)], 0)
-    })
+/// Rows of tail batch `n` of partition `p` (of `np`): `ts` strictly increasing, unique across
+/// partitions, starting TAIL_GAP above `t0`. `same_keys`: keys from the prefix domain 0..6 (window
+/// shapes: the tail continues the prefix's window partitions so that their frames close);
+/// otherwise keys 100..164 (table t) / 200..264 (table u): disjoint from the prefix and from
+/// each other, so tail rows never join.
+fn tail_rows(p: usize, np: usize, t0: i64, same_keys: bool, side: usize, n: u64) -> Vec<(i64, i64, i64)> {
+    let n = n as i64;
+    (0..TAIL_ROWS)
+        .map(|r| {
+            let i = TAIL_ROWS * n + r;
+            let k = if same_keys { (i + p as i64) % 6 } else { 100 * (1 + side as i64) + (i + p as i64) % 64 };
+            (k, t0 + TAIL_GAP + i * np as i64 + p as i64, (n + r) % 7)
+        })
+        .collect()
+}
+
+fn tail_gen(p: usize, np: usize, t0: i64, same_keys: bool, side: usize) -> TailGen {
+    Arc::new(move |n: u64| make_batch(&tail_rows(p, np, t0, same_keys, side, n), 0))
 }
 
 type Row = Vec<Option<i64>>;
@@ -289,42 +318,36 @@ struct Reference {
     must: Bag,
 }
 
-fn window_ref(rows: &[R], rows_frame: bool, p: i64, f: i64) -> Reference {
+/// Window shapes: the tail continues the prefix's window partitions (same keys), so every prefix
+/// row's frame eventually closes; ROWS frames of the last prefix rows of a key reach into the tail,
+/// whose first rows are therefore part of the model input (`rows` = prefix ++ first tail batches).
+/// RANGE frames never reach the tail (TAIL_GAP > largest FOLLOWING offset).
+fn window_ref(rows: &[R], t0: i64, rows_frame: bool, p: i64, f: i64) -> Reference {
     let mut by_k: BTreeMap<i64, Vec<R>> = BTreeMap::new();
     for r in rows {
         by_k.entry(r.k).or_default().push(*r);
     }
-    // (ts, row, closed)
-    let mut all: Vec<(i64, Row, bool)> = vec![];
+    let mut all = vec![];
     for part in by_k.values_mut() {
         part.sort_by_key(|r| r.ts);
         for (i, r) in part.iter().enumerate() {
+            if r.ts > t0 {
+                continue;
+            }
             let in_frame: Vec<&R> = part
                 .iter()
                 .enumerate()
                 .filter(|(j, x)| if rows_frame { (*j as i64) >= i as i64 - p && (*j as i64) <= i as i64 + f } else { x.ts >= r.ts - p && x.ts <= r.ts + f })
                 .map(|(_, x)| x)
                 .collect();
-            let row: Row = vec![some(r.k), some(r.ts), some(r.v), some(in_frame.iter().map(|x| x.v).sum()), some(in_frame.len() as i64)];
-            // Closing rule. RANGE frame on the ordered column: closed by the input ordering as soon as
-            // any later input row lies beyond the frame end — the tail guarantees that for every
-            // prefix row (BoundedWindowAggExec documents this bound for its Linear mode). ROWS frame:
-            // only later rows of the same window partition close it (f of them); CURRENT ROW needs none.
-            let closed = if rows_frame { f == 0 || part.len() as i64 - 1 - i as i64 >= f } else { true };
-            all.push((r.ts, row, closed));
+            all.push(vec![some(r.k), some(r.ts), some(r.v), some(in_frame.iter().map(|x| x.v).sum()), some(in_frame.len() as i64)]);
         }
     }
-    // The operator emits in input order: a closed row waits for every earlier row of its stream.
-    // Conservative over any hash partitioning of k: demand a row only if every row with a
-    // smaller ts (any key) is closed as well.
-    all.sort_by_key(|x| x.0);
-    let first_open = all.iter().position(|x| !x.2).unwrap_or(all.len());
-    let must = bag(all[..first_open].iter().map(|x| x.1.clone()));
-    let may = bag(all.into_iter().map(|x| x.1));
-    Reference { may, must }
+    let b = bag(all);
+    Reference { may: b.clone(), must: b }
 }
 
-fn reference(case: &Case, t: &[R], u: &[R]) -> Reference {
+fn reference(case: &Case, t: &[R], u: &[R], t0: i64) -> Reference {
     let c = case.c as i64;
     let all = |rows: Vec<Row>| {
         let b = bag(rows);
@@ -332,7 +355,7 @@ fn reference(case: &Case, t: &[R], u: &[R]) -> Reference {
     };
     match &case.shape {
         QShape::FilterProject => all(t.iter().filter(|r| r.v >= c).map(|r| vec![some(r.k), some(r.ts), some(r.v * 2)]).collect()),
-        QShape::UnionAll => all(t.iter().filter(|r| r.v >= c).chain(u.iter().filter(|r| r.v < c)).map(|r| vec![some(r.k), some(r.ts), some(r.v)]).collect()),
+        QShape::UnionAll => all(t.iter().filter(|r| r.v >= c).chain(u.iter().filter(|r| r.v <= c + 3)).map(|r| vec![some(r.k), some(r.ts), some(r.v)]).collect()),
         QShape::Merge => all(t.iter().map(|r| vec![some(r.k), some(r.ts), some(r.v)]).collect()),
         QShape::ShjRange { .. } | QShape::ShjNoRange => {
             let (jt, d) = match &case.shape {
@@ -362,8 +385,22 @@ fn reference(case: &Case, t: &[R], u: &[R]) -> Reference {
             }
             all(rows)
         }
-        QShape::WindowRows { p, f } => window_ref(t, true, *p as i64, *f as i64),
-        QShape::WindowRange { p, f } => window_ref(t, false, *p as i64, *f as i64),
+        QShape::WindowRows { .. } | QShape::WindowRange { .. } => {
+            let (rows_frame, p, f) = match &case.shape {
+                QShape::WindowRows { p, f } => (true, *p as i64, *f as i64),
+                QShape::WindowRange { p, f } => (false, *p as i64, *f as i64),
+                _ => (true, 0, 0),
+            };
+            // prefix ++ the first 6 tail batches of every partition (48 rows each: every key >= 8 times)
+            let np = case.t.len();
+            let mut rows = t.to_vec();
+            for part in 0..np {
+                for n in 0..6 {
+                    rows.extend(tail_rows(part, np, t0, true, 0, n).into_iter().map(|(k, ts, v)| R { k, ts, v }));
+                }
+            }
+            window_ref(&rows, t0, rows_frame, p, f)
+        }
         QShape::AggOrdered => {
             let mut g: BTreeMap<i64, (i64, i64, i64)> = BTreeMap::new();
             for r in t {
@@ -403,7 +440,7 @@ fn batch_rows(b: &RecordBatch) -> Result<Vec<Row>, String> {
 
 // ---------------------------------------------------------------------------------------------
 
-fn register(ctx: &datafusion::prelude::SessionContext, name: &str, prefix: &[Vec<Vec<R>>], monitor: &Monitor, t0: i64, side: usize) -> Result<(), String> {
+fn register(ctx: &datafusion::prelude::SessionContext, name: &str, prefix: &[Vec<Vec<R>>], monitor: &Monitor, t0: i64, side: usize, cap: u64, same_keys: bool) -> Result<(), String> {
     let np = prefix.len();
     let scripts: Vec<Script> = prefix
         .iter()
@@ -411,7 +448,7 @@ fn register(ctx: &datafusion::prelude::SessionContext, name: &str, prefix: &[Vec
         .map(|(p, batches)| {
             let items = batches.iter().map(|rows| Item::Batch(make_batch(&rows.iter().map(|r| (r.k, r.ts, r.v)).collect::<Vec<_>>(), 0))).collect();
             // the two tables' tails must not produce equal (k, ts) patterns only by accident of p: shift by side
-            Script { items, tail: Some(tail_gen(p, np, t0 + side as i64)), tail_cap: TAIL_CAP, tail_pending_every: 0, end: End::Finish }
+            Script { items, tail: Some(tail_gen(p, np, t0 + side as i64, same_keys, side)), tail_cap: cap, tail_pending_every: 0, end: End::HangParked }
         })
         .collect();
     let ps: Vec<Arc<dyn PartitionStream>> = parts(monitor, scripts).into_iter().map(|part| Arc::new(ScriptedPartition { schema: schema(), part }) as Arc<dyn PartitionStream>).collect();
@@ -440,11 +477,13 @@ async fn run_case(case: &Case) -> CaseResult {
         Err(m) => return CaseResult::inconclusive(format!("harness: {m}")),
     };
     let monitor = Monitor::new();
-    if let Err(m) = register(&env.ctx, "t", &t, &monitor, t0, 0) {
+    let dl = deadline(case);
+    labels.push(format!("batch_size={}", case.batch_size));
+    if let Err(m) = register(&env.ctx, "t", &t, &monitor, t0, 0, 4 * dl, unique) {
         return CaseResult::inconclusive(format!("harness: register: {m}"));
     }
     if shape.uses_u() {
-        if let Err(m) = register(&env.ctx, "u", &u, &monitor, t0, 1) {
+        if let Err(m) = register(&env.ctx, "u", &u, &monitor, t0, 1, 4 * dl, false) {
             return CaseResult::inconclusive(format!("harness: register: {m}"));
         }
     }
@@ -462,6 +501,10 @@ async fn run_case(case: &Case) -> CaseResult {
         },
     };
     labels.push("accepted".into());
+    let debug = std::env::var_os("VF_LIVE_DEBUG").is_some();
+    if debug {
+        eprintln!("{sql}\n{}", datafusion::physical_plan::displayable(plan.as_ref()).indent(true));
+    }
     let mut ops = vec![];
     plan_ops(&plan, &mut ops);
     for op in &ops {
@@ -473,7 +516,7 @@ async fn run_case(case: &Case) -> CaseResult {
     if shape.end_of_input_only() {
         labels.push(format!("accepted-although-end-of-input-only:{}", shape.name()));
     }
-    let reference = reference(case, &tf, &uf);
+    let reference = reference(case, &tf, &uf, t0);
     let ts_cols = shape.ts_cols();
     let in_prefix = |row: &Row| ts_cols.iter().any(|c| matches!(row.get(*c), Some(Some(ts)) if *ts <= t0));
 
@@ -490,10 +533,21 @@ async fn run_case(case: &Case) -> CaseResult {
     let mut last_ts: Option<i64> = None;
     let mut order_violation: Option<String> = None;
     loop {
-        if monitor.min_tail_batches() >= B {
+        if monitor.min_tail_batches() >= dl {
             break;
         }
-        match stream.next().await {
+        // the 20 ms poll only hands control back to this loop (sources park at their cap); it
+        // never decides a verdict
+        let next = match tokio::time::timeout(Duration::from_millis(20), stream.next()).await {
+            Ok(n) => n,
+            Err(_) => {
+                if monitor.all_capped() {
+                    break;
+                }
+                continue;
+            }
+        };
+        match next {
             None => {
                 ended = true;
                 break;
@@ -532,6 +586,9 @@ async fn run_case(case: &Case) -> CaseResult {
     }
     drop(stream);
     let min_tail = monitor.min_tail_batches();
+    if debug {
+        eprintln!("deadline {dl} tail batches per partition; min {min_tail}; total source batches {}; rows delivered {total_rows} (prefix rows {}); ended={ended} failure={failure:?}", monitor.batches(), delivered.len());
+    }
     let capped = monitor.capped() > 0;
     let ctx_msg = || format!("query `{sql}`; plan ops {ops:?}; prefix t={tf:?} u={uf:?}; largest prefix ts {t0}; tail batches produced per partition >= {min_tail}");
     if let Some(m) = order_violation {
@@ -567,9 +624,10 @@ async fn run_case(case: &Case) -> CaseResult {
     if ended {
         return CaseResult::violation(format!("the stream over an endless input ended by itself after {total_rows} rows; {}", ctx_msg())).labels(labels);
     }
-    if min_tail < B {
-        // a source hit its safety cap while another partition was starved: consumption too unbalanced to judge
-        return CaseResult::inconclusive("a source partition was starved while another reached its cap").labels(labels);
+    if min_tail < dl {
+        // every executed partition is parked at its cap although some partition is below the deadline: impossible
+        // unless a partition was never executed
+        return CaseResult::inconclusive("deadline not reached although all executed partitions are capped").labels(labels);
     }
 
     if shape.end_of_input_only() {
@@ -626,7 +684,7 @@ impl Property for C50 {
         case_strategy(tier)
     }
     fn budget(&self, tier: Tier) -> Budget {
-        Budget::new(tier.pick(240, 12_000), tier.pick(8, 16)).min_nontrivial(tier.pick(50, 2_500)).case_timeout(180)
+        Budget::new(tier.pick(200, 10_000), tier.pick(8, 16)).min_nontrivial(tier.pick(50, 2_500)).case_timeout(240)
     }
     fn rule(&self) -> String {
         "case = query shape (10 streaming shapes, 5 end-of-input-only shapes) x prefix tables (1-3 partitions, 0-4 batches of 1-6 rows, ts monotone) x target_partitions x batch_size; \
@@ -635,10 +693,20 @@ impl Property for C50 {
     }
     fn assumptions(&self) -> Vec<String> {
         vec![
-            "tail rows use keys >= 100 and ts >= max prefix ts + 10, so they never join with / share a window partition or group with prefix rows".into(),
-            "liveness is demanded only for rows closed under a conservative rule (ROWS-frame window rows: f later rows in the same window partition and all rows with a smaller ts closed, because BoundedWindowAggExec emits in input order)".into(),
-            "bound B = 2000 tail batches per source partition, counted in source batches; a 60 s per-case timeout only produces 'inconclusive'".into(),
+            "tail rows use keys >= 100 (except window shapes) and ts >= max prefix ts + 10, so they never join or group with prefix rows".into(),
+            "window shapes: the tail continues the prefix's window partitions (same keys) so that all frames close; the reference is computed over the prefix plus the first 6 tail batches of every partition".into(),
+            "bound D = max(2000, 4 x batch_size x target_partitions / 8) tail batches per source partition, counted in source batches; a 150 s per-case timeout only produces 'inconclusive'".into(),
         ]
+    }
+    fn known_signature(&self, case: &Case) -> Option<String> {
+        // finding "filter-coalescer-holds-rows": FilterExec keeps rows that pass the predicate in its
+        // output coalescer until batch_size of them have accumulated; when the rest of an unbounded
+        // input never passes (UNION ALL branch `u WHERE v <= c + 3` with c + 3 < 0: tail values are
+        // 0..6) the buffered prefix rows are never delivered
+        match case.shape {
+            QShape::UnionAll if (case.c as i64) + 3 < 0 => Some(SIG_FILTER_COALESCER.to_string()),
+            _ => None,
+        }
     }
     fn run(&self, case: &Case) -> CaseResult {
         let rt = match tokio::runtime::Builder::new_current_thread().enable_all().build() {
@@ -646,9 +714,9 @@ impl Property for C50 {
             Err(e) => return CaseResult::inconclusive(format!("runtime: {e}")),
         };
         let r = rt.block_on(async {
-            match tokio::time::timeout(Duration::from_secs(60), run_case(case)).await {
+            match tokio::time::timeout(Duration::from_secs(150), run_case(case)).await {
                 Ok(r) => r,
-                Err(_) => CaseResult::inconclusive("per-case timeout (60 s)"),
+                Err(_) => CaseResult::inconclusive("per-case timeout (150 s)"),
             }
         });
         drop(rt);
